@@ -20,8 +20,8 @@ const rule = "Each case is a scenario of op lines run in its own child process o
 	"(returned error class, reports on the error channel, lastReportedError, counters, restart/re-run, HTTP status, " +
 	"Start/ManageModules/Shutdown results, module statuses, child exit) are diffed line by line. Enumerated completely: " +
 	"every kind of managed execution x 5 panic value classes x every position 1..n of the panicking item among n = 1..6 " +
-	"concurrently held items (quick: all n for class str, n in {1,3,6} otherwise), every lifecycle phase x value class x position; " +
-	"plus service-worker outcome sequences, management passes, items ending at module stop, random mixed scenarios, " +
+	"concurrently held items, every lifecycle phase x value class x position; " +
+	"plus service-worker outcome sequences, management passes, items ending at module stop, the same module through several lives (stopped and restarted with work before, during and after), random mixed scenarios, " +
 	"free-running bursts and a malformed-op stream. Non-trivial = the case contains at least one executed panic; " +
 	"distinct = distinct op-line sequence."
 
@@ -352,6 +352,61 @@ func (b *builder) randomCase(api bool) {
 	b.add(kind, lines, false)
 }
 
+// restartCase: the SAME module object through several lives (module management stops and starts it again):
+// work with panics in the first life, items ending at the stop, then work with panics on the restarted
+// module (fresh context, stop flag cleared, counters carried over).
+func (b *builder) restartCase() {
+	rng := b.r.Rng
+	stopTok := []string{"ok", "-", "p:str", "p:nil", "err"}[rng.Intn(5)]
+	lines := []string{"mod A ok ok " + stopTok, "mod B - - -", "mgmt A=on B=on", "start", "settle", "status"}
+	id := 1
+	lives := 2 + rng.Intn(2)
+	for life := 0; life < lives; life++ {
+		n := 1 + rng.Intn(4)
+		var specs []spec
+		task := false
+		for i := 0; i < n; i++ {
+			k := workKinds[rng.Intn(len(workKinds))]
+			if !task && rng.Intn(4) == 0 {
+				k = taskKinds[rng.Intn(len(taskKinds))]
+				task = true
+			}
+			specs = append(specs, spec{id: strconv.Itoa(id), kind: k, outs: randOuts(rng, k, 50)})
+			id++
+			b.r.Count("restart:kind:" + k)
+		}
+		for _, s := range specs {
+			lines = append(lines, s.line())
+		}
+		left := make([]int, len(specs))
+		for i, s := range specs {
+			left[i] = finishesNeeded(s)
+		}
+		for again := true; again; {
+			again = false
+			for _, i := range rng.Perm(len(specs)) {
+				if left[i] > 0 {
+					lines = append(lines, "finish "+specs[i].id)
+					left[i]--
+					again = again || left[i] > 0
+				}
+			}
+		}
+		lines = append(lines, "status")
+		if life < lives-1 {
+			// one item that ends (perhaps panicking) only when the module stops
+			if rng.Intn(2) == 0 {
+				k := []string{"runworker", "startworker", "svc", "mt-start-high", "hook-trigger"}[rng.Intn(5)]
+				lines = append(lines, spec{id: strconv.Itoa(id), kind: k, outs: randOutcome(rng, 60, false), flag: "onstop"}.line())
+				id++
+			}
+			lines = append(lines, "disable A", "manage", "settle", "enable A", "manage", "settle", "status")
+		}
+	}
+	lines = append(lines, "settle", "shutdown")
+	b.add("restart", lines, false)
+}
+
 // onstopCase: items that end (some panicking) only when the module context is cancelled by Shutdown.
 func (b *builder) onstopCase() {
 	rng := b.r.Rng
@@ -486,9 +541,6 @@ func generate(r *hxlib.Run, emit func(hxlib.Case)) {
 	for _, kind := range allKinds {
 		for _, pv := range mainPVs {
 			for n := 1; n <= 6; n++ {
-				if !r.Thorough && pv != "str" && n != 1 && n != 3 && n != 6 {
-					continue
-				}
 				for p := 0; p < n; p++ {
 					b.tableCell(kind, pv, n, p, false)
 				}
@@ -537,6 +589,9 @@ func generate(r *hxlib.Run, emit func(hxlib.Case)) {
 	for i := r.Budget(150, 2000); i > 0; i-- {
 		b.onstopCase()
 	}
+	for i := r.Budget(150, 2000); i > 0; i-- {
+		b.restartCase()
+	}
 	for i := r.Budget(400, 12000); i > 0; i-- {
 		b.randomCase(i%5 == 0)
 	}
@@ -561,7 +616,8 @@ var (
 func suspicious(outs []string) bool {
 	for _, o := range outs {
 		if strings.HasPrefix(o, "CRASH") || o == "HANG" || strings.HasPrefix(o, "NOCHILD") || strings.Contains(o, "noentry") ||
-			strings.Contains(o, "noreturn") || strings.Contains(o, "next=timeout") || strings.Contains(o, "slow=yes") {
+			strings.Contains(o, "noreturn") || strings.Contains(o, "next=timeout") || strings.Contains(o, "slow=yes") ||
+			strings.Contains(o, "exec=true") || strings.Contains(o, "sync=timeout") {
 			return true
 		}
 	}
@@ -607,7 +663,7 @@ func runPool(r *hxlib.Run, cases []hxlib.Case, emit func(hxlib.Case)) {
 					slowCases = append(slowCases, fmt.Sprintf("%.1fs %s: %s", d.Seconds(), cases[i].Kind, strings.Join(cases[i].Lines, "; ")))
 					slowMu.Unlock()
 				}
-				if suspicious(outs) {
+				if suspicious(outs) || len(monitor(cases[i], outs)) > 0 {
 					atomic.AddInt64(&nBadCases, 1)
 				}
 				for _, o := range outs {
